@@ -133,8 +133,10 @@ def run(ck):
         if deterministic and a["k"] == "runtime_error" and c06.order_dependent(p):
             # the model's outcome of a failing run is its error class and position, not the globals at that moment: with a for-in over
             # a map the globals reached before the failure may differ between two real runs
-            a = {k: v for k, v in a.items() if k not in ("g", "msg")}    # (the text names the operand types met first; class and position stay)
-            b = {k: v for k, v in b.items() if k not in ("g", "msg")}
+            # (the text names the operand types met first, and the element met first decides which operation of the body fails:
+            #  only the class stays comparable between two real runs)
+            a = {k: v for k, v in a.items() if k not in ("g", "msg", "positions")}
+            b = {k: v for k, v in b.items() if k not in ("g", "msg", "positions")}
         if deterministic and norm(a) != norm(b):
             ck.violation("twin-run", "optimized and unoptimized code behave differently:\n%s\nopt:   %s\nunopt: %s" % (
                 p["src"], json.dumps(a)[:600], json.dumps(b)[:600]), {"program": p, "opt": a, "unopt": b})
